@@ -624,6 +624,12 @@ func runC04(c *fw.Ctx) {
 			moved = append(moved, chd{filepath.Join(pf, d), rel})
 		}
 	}
+	// names that mean something to a shell or to a command line ("-", "~", "*.json", "$HOME.json", ".hidden" ...) as relative
+	// paths: to ParseFile they are file names like any other
+	for _, name := range odd {
+		moved = append(moved, chd{filepath.Join(pf, "odd"), name})
+	}
+	moved = append(moved, chd{filepath.Join(pf, "real"), "-"}, chd{filepath.Join(pf, "real"), "~"}) // no such files there
 	c.Cases("after-chdir", len(moved), true, func(i int, r *rng.R) {
 		wd, err := os.Getwd()
 		if err != nil || !filepath.IsAbs(pf) {
